@@ -66,7 +66,7 @@ def scenarios(rng, g):
     base = g.schema()
     doc = g.document(base)
     kind = rng.choice(['plain', 'plain', 'type', 'hash', 'string', 'context', 'subclass_rule', 'subclass_type', 'corrupt',
-                       'corrupt', 'corrupt', 'corrupt', 'nested_list', 'nested_list', 'registry', 'recursive'])
+                       'corrupt', 'corrupt', 'corrupt', 'nested_list', 'nested_list', 'registry', 'recursive', 'role', 'role'])
     e = lambda: rng.choice(['ctor', 'setter', 'update'])
     if kind == 'plain':
         other = g.schema()
@@ -104,6 +104,21 @@ def scenarios(rng, g):
             base = {'f': {'dependencies': ['a', 'b']}}
             doc = {}
         return kind, [('V', base, doc, e(), None), ('V', var, doc, e(), None)]
+    if kind == 'role':
+        # one mapping in two roles: as the rule set of a bulk rule and as a whole schema.  A rule set is
+        # rarely a well-formed schema and vice versa; the cache must keep the two apart.
+        rs = g.rules(1)
+        as_rules = {'f': {'type': 'dict', rng.choice(['valuesrules', 'keysrules']): rs}}
+        as_items = {'f': {'type': 'list', 'items': [rs]}}
+        sch = {'required': {'type': 'boolean'}, 'min': {'type': 'integer'}, 'type': {'type': 'string'}}
+        as_rules2 = {'f': {'type': 'dict', 'valuesrules': sch}}
+        if rng.random() < 0.5:
+            return kind, [('V', as_rules, {}, e(), None), ('V', rs, {}, e(), None), ('V', as_items, {}, e(), None),
+                          ('V', rs, {}, e(), None)]
+        return kind, [('V', sch, {}, e(), None), ('V', as_rules2, {}, e(), None), ('V', {'type': {'type': 'string'}}, {}, e(), None),
+                      ('V', {'f': {'type': 'dict', 'valuesrules': {'type': {'type': 'string'}}}}, {}, e(), None),
+                      ('V', {'f': {'type': 'dict', 'valuesrules': {'type': 'string'}}}, {}, e(), None),
+                      ('V', {'type': 'string'}, {}, e(), None)]
     if kind == 'registry':
         # a reference is cached by name: redefine the name between two submissions (known finding F13f)
         ref = {'a': 'r0'}
